@@ -428,6 +428,8 @@ package scanner
 //@   ensures queueC(s)
 //@   ensures queueD(s)
 //@   ensures imp(result1 == nil && s.curIndex <= s.dataSize, stackOK(s.step, s.stepStack) && scanOK(s, s.step, s.curIndex))
+//@   ensures imp(result0 != nil, result0.type_ <= 8 && result0.type_ != 4
+//@               && imp(result0.type_ != Annotation && result0.type_ != Text, result0.begin <= result0.end))
 //@   ensures imp(result0 != nil, result1 == nil && fresh(result0) && lexOK(result0) && result0.file == s.file
 //@               && result0.end < s.dataSize && old(s.gRet) <= result0.begin)
 //@ pred nextArrs(s *Scanner) := arrStable(s.finds.arr, old(s.finds.arr)) && arrStable(s.stack.arr, old(s.stack.arr))
@@ -509,7 +511,8 @@ package scanner
 // names on the stack are registered in uniqueFiles (so that a second push of the same file is refused)
 //@ pred namesOK(st *Stack) := forallp(j, at(st.stack, j).scanner,
 //@     imp(st.stack.off <= j && j < st.stack.off + len(st.stack), has(st.uniqueFiles, at(st.stack, j).scanner.file.name)))
-//@ pred stackInv(st *Stack) := st != nil && itemsOK(st) && namesOK(st) && len(st.hashes) == len(st.stack)
+//@ pred tracersOK(st *Stack) := forall(k, uint64, imp(st.includeTracers != nil && has(st.includeTracers, k), st.includeTracers[k] != nil))
+//@ pred stackInv(st *Stack) := st != nil && itemsOK(st) && namesOK(st) && len(st.hashes) == len(st.stack) && tracersOK(st)
 
 //@ func (*Stack).Push(s, scanner, at)
 //@   property C14,C01
@@ -536,6 +539,14 @@ package scanner
 //@   assume imp(result != nil, scannerInv(result))
 // names still on the stack stay registered: needs that stacked names are pairwise distinct (delete removes one name)
 //@   assume namesOK(s)
+
+//@ func newDirectiveIncludeTracer loop 1
+//@   invariant d.stack.arr == 0 || fresh(d.stack.arr)
+//@ func (*Stack).ToDirectiveIncludeTracer(s)
+//@   property C07,C01
+//@   requires stackInv(s)
+//@   modifies s.includeTracers, s.includeTracers[:]
+//@   ensures result != nil && tracersOK(s)
 
 //@ func (*Stack).Empty(s)
 //@   property C01
